@@ -708,3 +708,70 @@ Proof.
   rewrite Hcl. unfold R.
   destruct (run_cycles lz_compress cap sigs (read_int be [a0; a1; a2; a3; a4; a5; a6; a7]) vb e cs) as [[[vb' e']|]| |]; cbn [bind]; try reflexivity.
 Qed.
+
+(* ------------------------------------------------------------------ the snapshot section, signals of every type *)
+Fixpoint snap_effs (sigs : list ghw_sig) (idx : nat) (ps : list (list byte)) : option (list eff) :=
+  match ps with
+  | [] => Some []
+  | p :: r =>
+    match nth_error sigs idx with
+    | Some info =>
+      match payload_eff info idx p, snap_effs sigs (S idx) r with
+      | Some ef, Some s => Some (ef :: s)
+      | _, _ => None
+      end
+    | None => None
+    end
+  end.
+
+Fixpoint snap_ok (sigs : list ghw_sig) (idx : nat) (ps : list (list byte)) : Prop :=
+  match ps with
+  | [] => True
+  | p :: r => (forall info, nth_error sigs idx = Some info -> payload_ok info p) /\ snap_ok sigs (S idx) r
+  end.
+
+Theorem snapshot_records sigs : forall ps idx vb e rest effs,
+  snap_effs sigs idx ps = Some effs -> snap_ok sigs idx ps -> consistent sigs vb ->
+  snapshot_signals sigs (length ps) idx vb e (concat ps ++ rest)
+  = match run_effs vb e effs with
+    | Ok (vb', e') => Ok (Some (vb', e', rest))
+    | Err => Err
+    | Panic => Panic
+    end.
+Proof.
+  induction ps as [|p r IH]; intros idx vb e rest effs Hs Hok Hc.
+  - cbn in Hs. injection Hs as <-. reflexivity.
+  - cbn [snap_effs] in Hs. cbn [snap_ok] in Hok. destruct Hok as [Hp Hok].
+    destruct (nth_error sigs idx) as [info|] eqn:Ei; [|discriminate].
+    destruct (payload_eff info idx p) as [ef|] eqn:Ee; [|discriminate].
+    destruct (snap_effs sigs (S idx) r) as [s|] eqn:Er; [|discriminate]. injection Hs as <-.
+    cbn [length snapshot_signals concat]. rewrite <- app_assoc.
+    rewrite (read_signal_value_payload sigs idx info vb e p _ ef Ei Ee (Hp info eq_refl) Hc).
+    rewrite (run_effs_cons vb e ef s).
+    destruct (run_effs vb e [ef]) as [[vb1 e1]| |] eqn:E1; cbn [bind]; [|reflexivity..].
+    apply (IH (S idx) vb1 e1 rest s Er Hok). exact (consistent_keys sigs vb vb1 (run_effs_one_keys _ _ _ _ _ E1) Hc).
+Qed.
+
+(* `SNP\0`, four zero bytes, the 8 bytes of the time, one value per signal in signal order, `ESN\0` *)
+Theorem section_snapshot lz_compress cap be sigs ps t8 vb e rest f effs :
+  length t8 = 8%nat -> length ps = length sigs ->
+  snap_effs sigs 0 ps = Some effs -> snap_ok sigs 0 ps -> consistent sigs vb ->
+  sections lz_compress cap (S f) be sigs vb e (SNP ++ [0; 0; 0; 0] ++ t8 ++ concat ps ++ ESN ++ rest)
+  = do e1 <- time_change lz_compress cap e (read_int be t8);
+    match run_effs vb e1 effs with
+    | Ok (vb2, e2) => do '(vb3, e3) <- finish_time_step vb2 e2; sections lz_compress cap f be sigs vb3 e3 rest
+    | Err => Err
+    | Panic => Panic
+    end.
+Proof.
+  intros Ht Hl Hs Hok Hc.
+  destruct t8 as [|a0 [|a1 [|a2 [|a3 [|a4 [|a5 [|a6 [|a7 [|x y]]]]]]]]]; try discriminate.
+  set (body := concat ps ++ ESN ++ rest).
+  unfold SNP, ghw_snapshot_section. cbn [app sections length firstn skipn Nat.ltb Nat.leb].
+  cbn [mark_eq list_eqb N.eqb Pos.eqb andb negb]. fold body.
+  destruct (time_change lz_compress cap e (read_int be [a0; a1; a2; a3; a4; a5; a6; a7])) as [e1| |]; cbn [bind]; [|reflexivity..].
+  rewrite <- Hl. unfold body. rewrite (snapshot_records sigs ps 0 vb e1 (ESN ++ rest) effs Hs Hok Hc).
+  destruct (run_effs vb e1 effs) as [[vb2 e2]| |]; cbn [bind]; [|reflexivity..].
+  destruct (finish_time_step vb2 e2) as [[vb3 e3]| |]; cbn [bind]; [|reflexivity..].
+  unfold ESN, ghw_end_snapshot_section. cbn [app firstn skipn mark_eq list_eqb N.eqb Pos.eqb andb]. reflexivity.
+Qed.
